@@ -9,7 +9,8 @@ import vlib
 LEVEL = "proof"
 PROPS = "Writers/Props_C13.v"
 COQ_FILES = ["Writers/GoBytes.v", "Writers/GoBytesProofs.v", "Writers/PomProps.v", "Writers/PomPropsProofs.v",
-             "Writers/PkgJson.v", "Writers/PkgJsonProofs.v", "Writers/PomWriter.v", "Writers/PomWriterProofs.v",
+             "Writers/PkgJson.v", "Writers/PkgJsonProofs.v", "Writers/PomDecl.v", "Writers/PomDeclProofs.v",
+             "Writers/PomWriter.v", "Writers/PomWriterProofs.v",
              "Writers/Proofs.v", "Writers/Props_C13.v"]
 COQ_FILES = [f for f in COQ_FILES if os.path.exists(os.path.join(vlib.COQ, "theories", f))]
 
@@ -34,10 +35,13 @@ MODES = {
     },
     "pom": {
         "type": "mcase", "model_ok": "mcase_model_ok", "spec_ok": "mcase_spec_ok", "spec_full": "mcase_spec_full",
-        "domains": ["mcase_in_domain"],
-        "domain_names": ["pom_domain"],
-        "corr": "maven readWriter.Write panics (Go) vs Writers.PomWriter.write_panics over the generatePropertyPatches calls of buildPatches (Coq, vm_compute)",
-        "theorems": ["pom_write_never_panics"],
+        "domains": ["mcase_in_domain", "(fun c => d_lit (mc_chain c) (mc_updates c))",
+                    "(fun c => mc_chain_ok c && chain_frag (mc_chain c) (mc_updates c))", "mc_claimed"],
+        "domain_names": ["d_full_and_token_domain", "d_lit", "model_compared", "harness_structural_domain"],
+        "corr": "maven readWriter.Write (Go): written version declarations and property definitions of every pom of the chain vs "
+                "Writers.PomDecl.write_chain (Coq, vm_compute); Write panics vs Writers.PomWriter.write_panics",
+        "theorems": ["pom_decl_write_exact_on_D", "pom_decl_no_updates_identity", "pom_write_never_panics",
+                     "pom_origin_ignored_refuted", "pom_shared_property_refuted", "pom_property_in_parent_refuted"],
         "quick": 500, "thorough": 6000, "per": 25,
     },
 }
@@ -63,10 +67,12 @@ META = {
                   "pkgjson_success_implies_applied (package.json: exact byte-level effect of Write for every name -- dots, wildcards, "
                   "scopes, pipes -- except the stated residual: names starting with ':', which gjson.Escape does not cover); the models "
                   "are tied to the code on every run by vm_compute on the inputs the real functions were run on; the witnesses of the "
-                  "eight fixed findings run first as a regression corpus judged at full strength. PARTIAL for pom.xml: only 'Write "
-                  "panics iff a generatePropertyPatches call panics' is modelled (pom_write_never_panics), the token-level rewrite and "
-                  "origin selection are decided by the round-trip oracle only (encoding/xml token sequence, re-read requirements, "
-                  "effective declaration versions); pom_no_updates_identity and pom_tokens_preserved are not proved.",
+                  "fixed findings run first as a regression corpus judged at full strength. pom.xml: the declaration level is modelled "
+                  "(PomDecl.v: buildPatches origin selection and the effect on every version declaration/property of the pom chain), "
+                  "tied on every case, with pom_decl_write_exact_on_D (literal versions, any number of updates, any origin incl. parents' "
+                  "profiles), pom_decl_no_updates_identity, pom_write_never_panics and three _refuted theorems for the known findings; "
+                  "PARTIAL: the token level (same XML token sequence, comments, CDATA, inserted block) is decided by the harness's "
+                  "encoding/xml oracle only, and ${property} versions are claimed by the oracle on d_full without a proof.",
     "level_note": "Trusted: Coq kernel + vm_compute; Go harness harness/cmd/writers (generators, encoding/json and encoding/xml as "
                   "decoders for the oracle); gjson/sjson are modelled on the fragment documented in PkgJson.v (keys outside it are "
                   "excluded from the model comparison but not from the oracle); hooks guidedremediation/verif_export_c13.go and "
@@ -237,7 +243,7 @@ def run_regression(ctx, binp, mode):
 HEADERS = {
     "props": "From Coq Require Import List ZArith NArith Bool.\nFrom Scalibr Require Import Writers.GoBytes Writers.PomProps.\nImport ListNotations.\n",
     "pkgjson": "From Coq Require Import List ZArith NArith Bool.\nFrom Scalibr Require Import Writers.GoBytes Writers.PkgJson.\nImport ListNotations.\n",
-    "pom": "From Coq Require Import List ZArith NArith Bool.\nFrom Scalibr Require Import Writers.GoBytes Writers.PomWriter.\nImport ListNotations.\n",
+    "pom": "From Coq Require Import List ZArith NArith Bool.\nFrom Scalibr Require Import Writers.GoBytes Writers.PomProps Writers.PomDecl Writers.PomWriter.\nImport ListNotations.\n",
 }
 
 
@@ -345,16 +351,17 @@ def run(ctx):
         "vm_compute_cases": evaluations,
         "per_mode": per_mode,
         "modes_modelled": modes,
-        "pom_half": "PARTIAL: only the panic behaviour of the pom.xml Write is modelled in Coq (PomWriter.v: Write panics iff a "
-                    "generatePropertyPatches call of buildPatches panics; tied on every case). Origin selection (buildPatches), the "
-                    "token-level rewrite (write/writeProject/writeDependency/writeString) and the inserted dependencyManagement block "
-                    "are NOT modelled: pom_no_updates_identity / pom_tokens_preserved / pom_read_write_exact are not proved and are "
-                    "decided by the harness's round-trip oracle only (encoding/xml token sequence of every written file, strict on "
-                    "the zero-update stream; re-read requirements = original requirements with the versions substituted; effective version "
-                    "of every declaration of the pom chain, resolved independently with profile-scoped then project-level properties "
-                    "(harness eff.go): exactly the addressed declaration stands for VersionTo, incl. the stream with one property name "
-                    "defined in several origins), claimed on "
-                    "the structural domain computed by the harness (flag claimed)",
+        "pom_half": "Declaration level MODELLED AND TIED (PomDecl.v): buildPatches (OriginalDependency = first declaration by key, "
+                    "parentPathFromOrigin, property-vs-literal via generate_property_patches, property origin, preset conflicts) and "
+                    "the effect of the patches on every version declaration and property definition of every pom of the chain; the "
+                    "written declarations/properties are compared with write_chain on every case, the independent effective-version "
+                    "spec (decl_spec_ok) is evaluated on the implementation's own output; pom_decl_write_exact_on_D is proved on d_lit "
+                    "(literal versions), the oracle claims d_full (also ${property} versions, not proved). ORACLE-ONLY, not modelled: "
+                    "the token level -- that element order, attributes, namespaces, whitespace/text, comments (incl. inside <version>), "
+                    "processing instructions and CDATA survive the forked encoder as the same token sequence, and the inserted "
+                    "dependencyManagement block (encoding/xml token comparison of every written file, strict on the zero-update "
+                    "stream; pom_no_updates_identity / pom_tokens_preserved at token level are not proved); plus the re-read "
+                    "requirements and the Go effective-version reference (eff.go) as cross-checks",
         "known_findings_results": known_results,
         "regression_corpus": regression_results,
     })
